@@ -3,6 +3,8 @@ package sym
 import (
 	"crypto/sha256"
 	"fmt"
+
+	"golang.org/x/tools/go/ssa"
 )
 
 // sha256 contract: on concrete input the real digest; on symbolic input an
@@ -59,4 +61,56 @@ func init() {
 		// the dynamic type only matters for type switches; none are applied to hash.Hash here
 		return Iface{T: fr.fn.Signature.Results().At(0).Type(), V: obj}
 	})
+}
+
+// encoding/json.Marshal is reflection-driven; for a string argument its result is
+// produced by the package's own appendString (pure byte code), which is what the
+// engine interprets. Other argument types are not supported.
+func init() {
+	reg("encoding/json.Marshal", func(m *Machine, fr *frame, a []Value) Value {
+		itf, ok := a[0].(Iface)
+		if !ok || itf.T == nil || !isString(itf.T) {
+			panic(unsupported("encoding/json.Marshal of a non-string value"))
+		}
+		inst := m.jsonAppendString()
+		if inst == nil {
+			panic(unsupported("encoding/json.appendString[string] not found"))
+		}
+		out := m.call(fr, inst, []Value{[]Value(nil), itf.V, T.True}, nil)
+		return Tuple{out, Iface{}}
+	})
+}
+
+func (m *Machine) jsonAppendString() *ssa.Function {
+	if m.jsonAppend != nil {
+		return m.jsonAppend
+	}
+	pkg := m.Prog.ImportedPackage("encoding/json")
+	if pkg == nil {
+		return nil
+	}
+	pkg.Build()
+	for _, mem := range pkg.Members {
+		f, ok := mem.(*ssa.Function)
+		if !ok {
+			continue
+		}
+		for _, b := range f.Blocks {
+			for _, in := range b.Instrs {
+				c, ok := in.(ssa.CallInstruction)
+				if !ok {
+					continue
+				}
+				callee := c.Common().StaticCallee()
+				if callee == nil || callee.Origin() == nil || callee.Origin().Name() != "appendString" {
+					continue
+				}
+				if ta := callee.TypeArgs(); len(ta) == 1 && isString(ta[0]) {
+					m.jsonAppend = callee
+					return callee
+				}
+			}
+		}
+	}
+	return nil
 }
